@@ -14,7 +14,9 @@
 #include <fcppt/algorithm/loop_break_tuple.hpp>
 #include <fcppt/algorithm/map.hpp>
 #include <fcppt/algorithm/map_array.hpp>
+#include <fcppt/algorithm/map_optional.hpp>
 #include <fcppt/algorithm/map_tuple.hpp>
+#include <fcppt/algorithm/reverse.hpp>
 #include <fcppt/array/append.hpp>
 #include <fcppt/array/from_range.hpp>
 #include <fcppt/array/init.hpp>
@@ -23,6 +25,7 @@
 #include <fcppt/array/object_impl.hpp>
 #include <fcppt/array/push_back.hpp>
 #include <fcppt/container/at_optional.hpp>
+#include <fcppt/container/join.hpp>
 #include <fcppt/mpl/list/object.hpp>
 #include <fcppt/optional/object_impl.hpp>
 #include <fcppt/tuple/concat.hpp>
@@ -564,6 +567,98 @@ template <std::size_t N> void check_tuple_concat_row()
   check_tuple_concat<N, 3>();
 }
 
+// ------------------------------------------------------------------ lvalue arguments are not moved from
+// Elements are std::strings taken by value by the callbacks: if an lvalue argument were treated as an rvalue
+// (move_if_rvalue / move_iterator_if_rvalue with the wrong type), its strings would be left empty.
+void check_no_steal()
+{
+  static std::string const name = "lvalue_not_moved_from";
+  using svec = std::vector<std::string>;
+  auto const strings = [](seq const &s) {
+    svec r;
+    for (int x : s)
+      r.push_back(std::string("element-") + std::to_string(x) + "-long-enough-to-live-on-the-heap");
+    return r;
+  };
+  auto const by_value = [](std::string s) { return s; };
+  for (seq const &s : all_seqs(3, 4))
+  {
+    svec const orig = strings(s);
+    std::string const ss = " " + show(s);
+    auto const run = [&](char const *what, auto body) {
+      if (!vrt::begin_text(name.c_str(), name + " " + what + ss))
+        return;
+      vrt::nontrivial(!s.empty());
+      vrt::maybe_sample();
+      body();
+    };
+    run("map(vector&)", [&] {
+      svec src = orig;
+      svec const r = fcppt::algorithm::map<svec>(src, by_value);
+      VRT_CHECK(r == orig, name + ":map:wrong", "wrong result");
+      VRT_CHECK(src == orig, name + ":map", "source changed: now %s", show(src).c_str());
+    });
+    run("map_optional(vector&)", [&] {
+      svec src = orig;
+      svec const r = fcppt::algorithm::map_optional<svec>(src, [](std::string v) { return fcppt::optional::object<std::string>{v}; });
+      VRT_CHECK(r == orig, name + ":map_optional:wrong", "wrong result");
+      VRT_CHECK(src == orig, name + ":map_optional", "source changed: now %s", show(src).c_str());
+    });
+    run("fold(vector&)", [&] {
+      svec src = orig;
+      std::size_t const n = fcppt::algorithm::fold(src, std::size_t{0}, [](std::string v, std::size_t c) { return c + (v.empty() ? 0U : 1U); });
+      VRT_CHECK(n == orig.size(), name + ":fold:wrong", "wrong result");
+      VRT_CHECK(src == orig, name + ":fold", "source changed: now %s", show(src).c_str());
+    });
+    run("join(vector&,vector&,vector&&)", [&] {
+      svec a = orig, b = orig;
+      svec const r = fcppt::container::join(a, b, svec(orig));
+      svec want = orig;
+      want.insert(want.end(), orig.begin(), orig.end());
+      want.insert(want.end(), orig.begin(), orig.end());
+      VRT_CHECK(r == want, name + ":join:wrong", "got %s", show(r).c_str());
+      VRT_CHECK(a == orig && b == orig, name + ":join", "arguments changed: now %s and %s", show(a).c_str(), show(b).c_str());
+    });
+    run("join(vector&&,vector&)", [&] {
+      svec b = orig;
+      svec const r = fcppt::container::join(svec(orig), b);
+      VRT_CHECK(r.size() == 2 * orig.size(), name + ":join2:wrong", "got %s", show(r).c_str());
+      VRT_CHECK(b == orig, name + ":join2", "lvalue argument changed: now %s", show(b).c_str());
+    });
+    run("reverse(vector&)", [&] {
+      svec src = orig;
+      svec const r = fcppt::algorithm::reverse(src);
+      VRT_CHECK(r == svec(orig.rbegin(), orig.rend()), name + ":reverse:wrong", "got %s", show(r).c_str());
+      VRT_CHECK(src == orig, name + ":reverse", "source changed: now %s", show(src).c_str());
+    });
+    if (s.size() == 2)
+    {
+      run("array::map / from_range / tuple::map / tuple::push_back (lvalues)", [&] {
+        fcppt::array::object<std::string, 2> arr2{orig[0], orig[1]};
+        auto const r1 = fcppt::array::map(arr2, by_value);
+        VRT_CHECK(arr2.impl()[0] == orig[0] && arr2.impl()[1] == orig[1] && r1.impl()[1] == orig[1], name + ":array::map",
+                  "array changed: now [%s,%s]", arr2.impl()[0].c_str(), arr2.impl()[1].c_str());
+        svec src = orig;
+        auto const r2 = fcppt::array::from_range<2>(src);
+        VRT_CHECK(src == orig && r2.has_value() && r2.get_unsafe().impl()[0] == orig[0], name + ":array::from_range",
+                  "source changed: now %s", show(src).c_str());
+        fcppt::tuple::object<std::string, std::string> tup{orig[0], orig[1]};
+        auto const r3 = fcppt::tuple::map(tup, by_value);
+        VRT_CHECK(std::get<0>(tup.impl()) == orig[0] && std::get<1>(tup.impl()) == orig[1] &&
+                      std::get<1>(r3.impl()) == orig[1],
+                  name + ":tuple::map", "tuple changed: now (%s,%s)", std::get<0>(tup.impl()).c_str(),
+                  std::get<1>(tup.impl()).c_str());
+        std::string extra = orig[0];
+        auto const r4 = fcppt::tuple::push_back(tup, extra);
+        VRT_CHECK(std::get<0>(tup.impl()) == orig[0] && std::get<1>(tup.impl()) == orig[1] && extra == orig[0] &&
+                      std::get<2>(r4.impl()) == orig[0],
+                  name + ":tuple::push_back", "arguments changed: now (%s,%s) and %s", std::get<0>(tup.impl()).c_str(),
+                  std::get<1>(tup.impl()).c_str(), extra.c_str());
+      });
+    }
+  }
+}
+
 // ------------------------------------------------------------------ mpl lists as ranges
 template <int... V> void check_mpl_list()
 {
@@ -687,6 +782,7 @@ void register_array_tuple_shards()
     check_tuple_concat_row<2>();
     check_tuple_concat_row<3>();
   });
+  c16::shard("lvalue_not_moved_from", [] { check_no_steal(); });
   c16::shard("mpl_list", [] {
     check_mpl_list<>();
     check_mpl_list<1>();
